@@ -236,6 +236,49 @@ theorem size_calc_predicts (vs : List Val) (hlen : (encodeL vs).length < W) :
     simp only [Nat.zero_add]
     exact Nat.mod_eq_of_lt hlen
 
+/-! ### a reader on an array that changes between its calls
+
+`BufferReader` holds a `shared_ptr` to the array and asks it for `size()` and `begin()` at every call; the array may be
+the live buffer of a `BufferWriter` that keeps writing, or may have been emptied (its bytes moved out). -/
+
+/-- reader_sees_appended: a read that succeeds on the array as it is returns the same bytes and the same cursor
+    after any bytes were appended to the array, and once enough bytes have been appended every read succeeds. -/
+theorem reader_sees_appended (buf ext : List UInt8) (c size : Nat) (hlen : (buf ++ ext).length < W) (hc : c ≤ buf.length) :
+    (c + size ≤ buf.length →
+      (Reader.mk (buf ++ ext) c).read size = (match (Reader.mk buf c).read size with
+        | .ok (bs, r') => .ok (bs, ⟨buf ++ ext, r'.cursor⟩)
+        | o => o)) ∧
+    (c + size ≤ (buf ++ ext).length →
+      (Reader.mk (buf ++ ext) c).read size = .ok (((buf ++ ext).drop c).take size, ⟨buf ++ ext, c + size⟩)) := by
+  have hl : buf.length ≤ (buf ++ ext).length := by simp
+  have hi1 : (Reader.mk buf c).Inv := ⟨by simp only; omega, hc⟩
+  have hi2 : (Reader.mk (buf ++ ext) c).Inv := ⟨hlen, by simp only; omega⟩
+  rw [Reader.read_spec _ hi1 size, Reader.read_spec _ hi2 size]
+  simp only
+  constructor
+  · intro h
+    have h2 : c + size ≤ (buf ++ ext).length := by omega
+    rw [if_pos h, if_pos h2]
+    simp only [Res.ok.injEq, Prod.mk.injEq, and_true]
+    rw [List.drop_append_of_le_length hc, List.take_append_of_le_length (by simp; omega)]
+  · intro h
+    rw [if_pos h]
+
+/-- stale_cursor_throws: when the array has become shorter than the reader's cursor (its bytes were moved out, it
+    was reset), every read and every view throws — nothing is read — and `end()` is true. -/
+theorem stale_cursor_throws (buf : List UInt8) (c : Nat) (hc : buf.length < c) (size count k : Nat) :
+    (Reader.mk buf c).read size = .throw ∧ (Reader.mk buf c).getView count k = .throw ∧ (Reader.mk buf c).atEnd = true := by
+  have h1 : (Reader.mk buf c).rejects size = true := by
+    simp only [Reader.rejects, Reader.size, Bool.or_eq_true, decide_eq_true_eq]; exact Or.inl hc
+  have h2 : (Reader.mk buf c).rejectsView count k = true := by
+    simp only [Reader.rejectsView, Reader.size, Bool.or_eq_true, decide_eq_true_eq]; exact Or.inl hc
+  refine ⟨by simp [Reader.read, h1], by simp [Reader.getView, h2], ?_⟩
+  simp only [Reader.atEnd, Reader.size, ge_iff_le, decide_eq_true_eq]; omega
+
+-- non-vacuity: the reader of the harness' `live_case`: one byte written, read; three more appended, read
+example : (Reader.mk [1] 0).read 1 = .ok ([1], ⟨[1], 1⟩) ∧ (Reader.mk [1, 2, 3, 4] 1).read 3 = .ok ([2, 3, 4], ⟨[1, 2, 3, 4], 4⟩) ∧
+    (Reader.mk [] 4).read 0 = .throw := ⟨by rfl, by rfl, by rfl⟩
+
 theorem atEnd_iff (r : Reader) (h : r.Inv) : r.atEnd = true ↔ r.buf.drop r.cursor = [] := by
   obtain ⟨_, h2⟩ := h
   simp only [Reader.atEnd, Reader.size, ge_iff_le, decide_eq_true_eq, List.drop_eq_nil_iff]
